@@ -21,7 +21,7 @@ class C03(RecorderProp):
     RULE = ('pairs (recorded program P, replayed program P\' = P or a behavioural edit of P: changed output argument, dropped / '
             'added / swapped output call, changed final result, raise instead of return) over straight-line programs with 1-14 '
             'calls per alias (more than nine included), instance and static outputs, outputs with a data handler, positional and '
-            'keyword arguments; the expected recorded and replayed output maps are computed from the programs alone and the set '
+            'keyword arguments, a quarter of the inputs calling an output from their body on an alias the operation also uses directly (nested: takes no ordinal); the expected recorded and replayed output maps are computed from the programs alone and the set '
             'of differing entries is compared with the set predicted from the edit; non-trivial = at least one output call; '
             'distinct = distinct canonical case')
     N = {'quick': 2500, 'thorough': 25000}
@@ -46,6 +46,11 @@ class C03(RecorderProp):
             if sp['handler'] == 'wrap' and sp['nargs'] > 0 and rng.random() < 0.5:
                 # the output function changes the argument it was handed in place - after the (serialising) handler saw it
                 sp['body'].insert(0, {'op': 'stamp', 'x': 'a%d' % rng.randrange(sp['nargs'])})
+        if nin and rng.random() < 0.25:
+            # an intercepted input whose body sends on an alias the operation also sends on directly: the inner call is nested
+            # (not an output of the operation, it takes no ordinal), the direct ones are numbered 1, 2, 3 ...
+            o = 'o%d' % rng.randrange(nout)
+            sites['i0']['body'].insert(0, {'op': 'call', 's': o, 'x': 'inner', 'args': [const({'s': 'from-body'})] * sites[o]['nargs']})
         ncalls = rng.choice([1, 2, 3, 4, 6, 8]) if rng.random() < 0.8 else rng.randint(10, 14)
         script = []
         for j in range(ncalls):
